@@ -1,6 +1,6 @@
 SPECIFICATION Spec
 CONSTANTS
-  Materials <- MatsT
+  Materials <- MatsQ
   Incs <- IncsT
   Depth = 5
   Emit = TRUE
